@@ -1031,3 +1031,34 @@ func ifSuccs(b *ssa.BasicBlock) (cond ssa.Value, t, f *ssa.BasicBlock, ok bool) 
 	}
 	return i.Cond, b.Succs[0], b.Succs[1], true
 }
+
+// loopHeaderOf returns the header of the innermost natural loop containing block b (nil if none).
+func loopHeaderOf(b *ssa.BasicBlock) *ssa.BasicBlock {
+	var best *ssa.BasicBlock
+	for _, h := range b.Parent().Blocks {
+		if !(h == b || h.Dominates(b)) {
+			continue
+		}
+		isHeader := false
+		for _, p := range h.Preds {
+			if (h == p || h.Dominates(p)) && (p == b || blockReachAvoid(b, p, h)) {
+				isHeader = true
+			}
+		}
+		if !isHeader {
+			continue
+		}
+		if best == nil || best.Dominates(h) {
+			best = h
+		}
+	}
+	return best
+}
+
+// blockReachAvoid: can `from` reach `to` without passing through `avoid`?
+func blockReachAvoid(from, to, avoid *ssa.BasicBlock) bool {
+	if from == to {
+		return true
+	}
+	return blockReach(from, map[*ssa.BasicBlock]bool{avoid: true})[to]
+}
